@@ -21,7 +21,7 @@ ASSUMPTIONS = [
     "SciPy present, so None (inconclusive) is not an acceptable answer",
 ]
 RULE = {
-    "quick": "every network with <=2 reactions over species {A,B,C}, coefficients {0,1,2}, one per species-permutation class (46 184 of 266 084), plus textbook families; "
+    "quick": "every network with <=2 reactions over species {A,B,C}, coefficients {0,1,2}, one per species-permutation class (46 184 of 266 084), plus textbook families and 8 232 networks made of a reaction, its exact reverse and one or two more reactions; isolated-species and bipartite-view sub-checks on the unit-coefficient / textbook networks and 1 in 8 of the others; "
     "three id/rule schemes assigned by a hash of the network; non-trivial = kernel of S or S^T is non-zero",
     "thorough": "all 266 084 labelled networks of the quick family + every 3-reaction network over 3 species with coefficients {0,1} (43 680), 4 species x 2 reactions x {0,1}, textbook families",
 }
